@@ -87,7 +87,7 @@ def body(mc, p):
     n = 0
     fn = BINOPS[p["op"]] if p["kind"] == "bin" else UNOPS[p["op"]]
     for vname, mk in VALUES:
-        for state in ("resolved", "failed", "failed_attr"):
+        for state in ("resolved", "failed", "failed_attr", "failed_via_proxy", "resolved_via_proxy"):
             if state != "resolved" and vname not in ("int3", "list"):
                 continue
             opers = OPERANDS if p["kind"] == "bin" else [(None, None)]
@@ -96,6 +96,14 @@ def body(mc, p):
                 if state == "resolved":
                     want = outcome(fn, mk(), ov) if p["kind"] == "bin" else outcome(fn, mk())
                     prox = F.f_proxy(F.f_return(mk()))
+                elif state == "resolved_via_proxy":
+                    want = outcome(fn, mk(), ov) if p["kind"] == "bin" else outcome(fn, mk())
+                    prox = F.f_proxy(F.f_nocancel(F.f_proxy(F.f_return(mk()))))
+                elif state == "failed_via_proxy":
+                    exc = E2("boom")
+                    want = ("raise", "AttributeError" if p["op"] == "dunder_missing" else "E2")
+                    # the input of the proxy is itself a (failed) proxy future, through f_nocancel
+                    prox = F.f_proxy(F.f_nocancel(F.f_proxy(F.f_return_error(exc))), timeout=1.0)
                 else:
                     exc = E2("boom") if state == "failed" else AttributeError("boom")
                     want = ("raise", type(exc).__name__)
